@@ -100,7 +100,7 @@ func (ex *Exec) abstractSort(t types.Type) (Sort, bool) {
 			switch kind {
 			case "real":
 				res = absRes{SReal, true}
-			case "int", "felt":
+			case "int", "felt", "xexp":
 				res = absRes{SInt, true}
 			}
 		}
@@ -218,6 +218,14 @@ func (ex *Exec) newVar(name string, s Sort, lo, hi *big.Int) *Term {
 		fail("duplicate nondeterministic name %q", name)
 	}
 	ex.declared[name] = true
+	if ex.pinRe != nil && s == SInt && ex.pinRe.MatchString(name) {
+		if val, ok := ex.pinVals[name]; ok {
+			// semi-concretisation: this input is fixed to the value of a previous model, which makes
+			// products with it linear (exact) instead of uninterpreted
+			ex.note("pinned input " + name)
+			return ex.ts.Int(val)
+		}
+	}
 	v := ex.ts.Var(name, s, lo, hi)
 	ex.nondets = append(ex.nondets, v)
 	return v
